@@ -252,6 +252,15 @@ CHECKS += [
      "note": "SQLite only, TZ=UTC; populations are FK-consistent synthetic rows, not real historical data."},
 ]
 
+CHECKS += [
+    {"id": "C29", "engine": "enum", "level": "exploration",
+     "technique": "bounded-exhaustive enumeration of command texts executed through the real heredoc wrapper by bash; staging shapes through the scheduler",
+     "text": "Every self-printing command text (shebang /bin/cat or cat $0 under the default shell) followed by every sequence of <=2 (quick) / <=3 "
+     "(thorough) lines chosen against the heredoc, plain and indented: the script file the wrapper writes must equal the reference-prepared "
+     "command byte for byte, the terminator never equals a line, default shell iff no shebang; plus script() for 7 output shapes x 0-2 staged inputs.",
+     "note": "Uses the system's bash and cat; local staging only."},
+]
+
 _ALL = [f"C{i:02d}" for i in range(1, 39)]
 _claimed = {c["id"] for c in CHECKS}
 _REASONS = {}
